@@ -155,3 +155,12 @@ pub fn approx_exp(x: f64, ccs: f64) -> u64 {
 pub fn ber_exp(x: f64, ccs: f64, random_bytes: [u8; 7]) -> bool {
     crate::samplerz::verif_ber_exp(x, ccs, random_bytes)
 }
+
+/// Read-only access to the crate-private HashToPoint (coefficients in [0, q)).
+pub fn hash_to_point(string: &[u8], n: usize) -> Vec<i16> {
+    crate::polynomial::hash_to_point(string, n)
+        .coefficients
+        .iter()
+        .map(|c| c.value())
+        .collect()
+}
